@@ -71,6 +71,13 @@ let handle (toks : string list) : string =
     let flags = if ms = "-" then [] else List.init (String.length ms) (fun i -> ms.[i] = '1') in
     let (a, c) = deliver_rule pending flags in
     dec a ^ " " ^ (match c with DlvOk -> "ok" | DlvNoFetch -> "nofetch" | DlvStale -> "stale" | DlvPartial -> "partial")
+  | ["hdrs"; h; hm; origin; amount; skip; rev] ->
+    let o = if origin = "-" then None else Some (n_of_string origin) in
+    let l = serve_headers (n_of_string h) (bool_of_tok hm) o (n_of_string amount) (n_of_string skip) (bool_of_tok rev) in
+    if l = [] then "-" else String.concat "," (List.map dec l)
+  | ["discreason"; payload] ->
+    let n = disc_reason (bytes_of_hex payload) in
+    hex_of_n n ^ " " ^ (if disc_reason_named n then "named" else "unknown")
   | ["headers"; a; av] -> dec (headers_served (n_of_string a) (n_of_string av))
   | ["bufsize"; f] -> dec (frame_buf_size (n_of_string f))
   | ["declen"; h] -> (match snappy_declen (bytes_of_hex h) with Some n -> "ok " ^ dec n | None -> "err")
